@@ -31,6 +31,9 @@ def run(ctx: Ctx):
     from .common import generic_lints
 
     generic_lints(ctx)
+    from .common import dependency_footprints
+
+    dependency_footprints(ctx)
 
 
 def guards(ctx: Ctx):
@@ -43,11 +46,18 @@ def guards(ctx: Ctx):
     where = f"{SMO}::_SingleSidedMovingAvgSmoother._can_smooth"
     P = 5  # model: five periods on the last axis
     bad, n, undec = [], 0, None
-    for size in (0, 3 * P):
+    # the array handed in: empty / non-empty but all zeros / ordinary (whether smoothing applies depends on its SHAPE only)
+    for size, nonzero in ((0, False), (3 * P, False), (3 * P, True)):
         for mem in dt_members(ctx.repo):
             for w in (0, 1, 2, 3, P, P + 1, 50):
-                def extra(x, size=size, w=w):
+                def extra(x, size=size, w=w, nonzero=nonzero):
                     t = u(x)
+                    if t in ("base_values.any()", "np.any(base_values)", "base_values.sum()", "np.sum(base_values)", "np.count_nonzero(base_values)", "base_values.max()"):
+                        return nonzero
+                    if t in ("base_values.all()", "np.all(base_values)"):
+                        return nonzero
+                    if t in ("len(base_values)", "base_values.shape[0]"):
+                        return 0 if size == 0 else 3
                     if t == "base_values.size":
                         return size
                     if t in ("base_values.shape[-1]", "base_values.shape[1]"):
@@ -64,7 +74,7 @@ def guards(ctx: Ctx):
                     break
                 n += 1
                 if bool(got) != want:
-                    bad.append(f"size={size} type={mem} window={w} periods={P}: {bool(got)} (specified {want})")
+                    bad.append(f"size={size} {'non-zero' if nonzero else 'all-zero'} values, type={mem} window={w} periods={P}: {bool(got)} (specified {want})")
             if undec:
                 break
         if undec:
